@@ -39,6 +39,9 @@ def cases(seed, tier):
         c["targets_mode"] = ["some", "all", "none", "one"][i % 4]
         if i % 5 == 3:
             c["starved"] = True
+        if i % 9 == 4:
+            c["n_agents"] = 600       # panels beyond 1024 rows (whatever is evaluated in blocks must not show)
+            c["targets_mode"] = "some"
         if i % 4 == 1:
             # utility written with a reduction over a stacked vector (not broadcast-safe) and requested as a target
             c["force"] = sorted(set((c["force"] or []) + ["stacked"]))
